@@ -1,5 +1,6 @@
-"""Tokenizer and Pratt parser for the Rust subset used by src/broadword.rs and src/intrinsics.rs,
-plus item-level helpers (consts, fns, structs, impl blocks) used for the other generated files.
+"""Tokenizer and Pratt parser for the Rust subset used by src/broadword.rs and src/intrinsics.rs and by the
+loop-free methods of the core modules (gen/MethodsGen.v), plus item-level helpers (consts, fns, structs, impl
+blocks, signatures) used for the other generated files.
 
 Anything outside the subset raises ParseError: the translator then reports that the tie to the
 source cannot be established (DESIGN.md section 5.1)."""
@@ -55,7 +56,11 @@ def normalized_tokens(src):
 #  ("if", cond, then_block, else_block_or_None) ("block", stmts, tail_or_None)
 #  ("cfgsel", intr_block, nointr_block)   -- pair of #[cfg(feature="intrinsics")] / not(...) blocks
 #  ("macro", name, [args])
+# method-level subset (tools/translate.py, MethodsGen): ("field", e, name) ("tuple", [es]) ("str", s)
+#  ("ref", e) ("un", "*", e) ("try", e) ("closure", [params], body) ("structlit", name, [(field, e)])
+#  ("bin", "..=" | "..", a, b)
 # statements: ("let", name, mutable, e) ("assign", name, op_or_None, e) ("expr", e) ("return", e)
+#  ("lettuple", [names], e)   ("assignp", place_expr, op_or_None, e)   -- place: field / index / deref
 # ---------------------------------------------------------------------------------------------
 
 BINPREC = {
@@ -65,9 +70,10 @@ BINPREC = {
     "&": 9, "^": 8, "|": 7,
     "==": 6, "!=": 6, "<": 6, ">": 6, "<=": 6, ">=": 6,
     "&&": 5, "||": 4,
+    "..=": 3, "..": 3,
 }
 ASSIGN_OPS = {"=": None, "+=": "+", "-=": "-", "*=": "*", "|=": "|", "&=": "&", "^=": "^",
-              "<<=": "<<", ">>=": ">>"}
+              "<<=": "<<", ">>=": ">>", "/=": "/", "%=": "%"}
 
 
 class Parser:
@@ -135,9 +141,14 @@ class Parser:
 
     def parse_unary(self):
         tok = self.peek()
-        if tok == ("op", "!") or tok == ("op", "-"):
+        if tok == ("op", "!") or tok == ("op", "-") or tok == ("op", "*"):
             self.next()
             return ("un", tok[1], self.parse_unary_postfix_cast())
+        if tok == ("op", "&"):
+            self.next()
+            if self.at("id", "mut"):
+                self.next()
+            return ("ref", self.parse_unary_postfix_cast())
         return self.parse_postfix()
 
     def parse_unary_postfix_cast(self):
@@ -163,6 +174,9 @@ class Parser:
                     e = ("mcall", e, name, args)
                 else:
                     e = ("field", e, name)
+            elif self.at("op", "?"):
+                self.next()
+                e = ("try", e)
             else:
                 return e
 
@@ -183,13 +197,33 @@ class Parser:
             return ("num", tok[1])
         if tok == ("op", "("):
             self.next()
+            if self.at("op", ")"):
+                self.next()
+                return ("tuple", [])
             e = self.parse_expr()
+            if self.at("op", ","):
+                items = [e]
+                while self.at("op", ","):
+                    self.next()
+                    if self.at("op", ")"):
+                        break
+                    items.append(self.parse_expr())
+                self.expect("op", ")")
+                return ("tuple", items)
             self.expect("op", ")")
             return e
         if tok == ("op", "{"):
             return self.parse_block()
         if tok == ("id", "if"):
             return self.parse_if()
+        if tok == ("id", "unsafe") and self.peek(1) == ("op", "{"):
+            self.next()
+            return self.parse_block()
+        if tok[0] == "str":
+            self.next()
+            return ("str", tok[1])
+        if tok == ("op", "|") or tok == ("op", "||"):
+            return self.parse_closure()
         if tok[0] == "id":
             self.next()
             path = [tok[1]]
@@ -200,10 +234,56 @@ class Parser:
                 self.next()
                 args = self.parse_args()
                 return ("macro", "::".join(path), args)
+            if len(path) == 1 and self.at("op", "{") and self.looks_like_struct_literal(path[0]):
+                return self.parse_struct_literal(path[0])
             if len(path) == 1:
                 return ("var", path[0])
             return ("path", path)
         raise ParseError("unexpected token %r in expression" % (tok,))
+
+    def parse_closure(self):
+        """|x| e   |&x| e   || e   (parameters are plain identifiers, optionally behind `&`)"""
+        params = []
+        if self.at("op", "||"):
+            self.next()
+        else:
+            self.expect("op", "|")
+            while not self.at("op", "|"):
+                if self.at("op", "&"):
+                    self.next()
+                params.append(self.expect("id")[1])
+                if self.at("op", ","):
+                    self.next()
+            self.expect("op", "|")
+        return ("closure", params, self.parse_expr())
+
+    def looks_like_struct_literal(self, name):
+        """`Name {` starts a struct literal only for `Self` / CamelCase names (constants are ALL_CAPS, and Rust
+        itself forbids struct literals in `if` conditions) followed by `}` or `field:` / `field,` / `field }`"""
+        if not (name == "Self" or re.match(r"[A-Z][A-Za-z0-9]*[a-z]", name)):
+            return False
+        t1, t2 = self.peek(1), self.peek(2)
+        if t1 == ("op", "}"):
+            return True
+        return t1[0] == "id" and t2 in (("op", ":"), ("op", ","), ("op", "}"))
+
+    def parse_struct_literal(self, name):
+        self.expect("op", "{")
+        fields = []
+        while not self.at("op", "}"):
+            f = self.expect("id")[1]
+            if self.at("op", ":"):
+                self.next()
+                e = self.parse_expr()
+            else:
+                e = ("var", f)
+            fields.append((f, e))
+            if self.at("op", ","):
+                self.next()
+            elif not self.at("op", "}"):
+                raise ParseError("malformed struct literal %s" % name)
+        self.expect("op", "}")
+        return ("structlit", name, fields)
 
     def parse_if(self):
         self.expect("id", "if")
@@ -224,6 +304,9 @@ class Parser:
             self.next()
             parts.append(self.expect("id")[1])
         return "::".join(parts)
+
+    def at_blocklike(self):
+        return self.at("id", "if") or (self.at("id", "unsafe") and self.peek(1) == ("op", "{"))
 
     # -- blocks / statements -----------------------------------------------------------------
     def parse_block(self):
@@ -264,6 +347,23 @@ class Parser:
                 if self.at("id", "mut"):
                     self.next()
                     mutable = True
+                if self.at("op", "("):
+                    if mutable:
+                        raise ParseError("`let mut (..)` is not a pattern")
+                    self.next()
+                    names = []
+                    while not self.at("op", ")"):
+                        if self.at("id", "mut"):
+                            self.next()
+                        names.append(self.expect("id")[1])
+                        if self.at("op", ","):
+                            self.next()
+                    self.expect("op", ")")
+                    self.expect("op", "=")
+                    e = self.parse_expr()
+                    self.expect("op", ";")
+                    stmts.append(("lettuple", names, e))
+                    continue
                 name = self.expect("id")[1]
                 if self.at("op", ":"):
                     self.next()
@@ -280,15 +380,28 @@ class Parser:
                     self.next()
                 stmts.append(("return", e))
                 continue
+            if self.at_blocklike():
+                # a block-like expression at statement start is a complete statement (as in rustc)
+                e = self.parse_primary()
+                if self.at("op", "}"):
+                    tail = e
+                else:
+                    if self.at("op", ";"):
+                        self.next()
+                    stmts.append(("expr", e))
+                continue
             e = self.parse_expr()
             tok = self.peek()
             if tok[0] == "op" and tok[1] in ASSIGN_OPS:
                 self.next()
                 rhs = self.parse_expr()
                 self.expect("op", ";")
-                if e[0] != "var":
-                    raise ParseError("assignment to a non-variable")
-                stmts.append(("assign", e[1], ASSIGN_OPS[tok[1]], rhs))
+                if e[0] == "var":
+                    stmts.append(("assign", e[1], ASSIGN_OPS[tok[1]], rhs))
+                elif e[0] in ("field", "index") or (e[0] == "un" and e[1] == "*"):
+                    stmts.append(("assignp", e, ASSIGN_OPS[tok[1]], rhs))
+                else:
+                    raise ParseError("assignment to an unsupported place")
                 continue
             if self.at("op", ";"):
                 self.next()
@@ -391,6 +504,52 @@ def functions(src):
             ret = hm.group(1).strip()
         b1 = find_matching(src, b0)
         out.append((m.group(1), params, ret, src[b0:b1 + 1], m.start()))
+    return out
+
+
+IMPL_RE = re.compile(r"\bimpl\b\s*(?:<[^>{]*>)?\s*([^{;]*?)\s*\{", re.S)
+
+
+def impl_blocks(src):
+    """[(trait or None, type name, body source incl. braces)] for every `impl [Trait for] Type[<..>] [where ..] {`"""
+    out = []
+    for m in IMPL_RE.finditer(src):
+        header = re.sub(r"\bwhere\b.*$", "", m.group(1), flags=re.S).strip()
+        hm = re.fullmatch(r"(?:([A-Za-z_][A-Za-z0-9_:]*(?:<[^{]*?>)?)\s+for\s+)?([A-Z][A-Za-z0-9_]*)\s*(?:<[^{]*>)?", header)
+        if not hm:
+            continue
+        trait = hm.group(1)
+        if trait is not None:
+            trait = re.sub(r"<.*$", "", trait, flags=re.S).split("::")[-1]
+        b0 = m.end() - 1
+        out.append((trait, hm.group(2), src[b0:find_matching(src, b0) + 1]))
+    return out
+
+
+def self_kind(params_src):
+    """'static' | 'ref' (&self) | 'mut' (&mut self) | 'move' (self / mut self)"""
+    parts = [x.strip() for x in split_top(params_src, ",")]
+    first = " ".join(parts[0].split()) if parts else ""
+    if re.fullmatch(r"&\s*('[a-z_]+\s+)?self", first):
+        return "ref"
+    if re.fullmatch(r"&\s*('[a-z_]+\s+)?mut self", first):
+        return "mut"
+    if first in ("self", "mut self"):
+        return "move"
+    return "static"
+
+
+def typed_params(params_src):
+    """[(name, type source)] of the non-self parameters"""
+    out = []
+    for part in split_top(params_src, ","):
+        part = " ".join(part.split())
+        if not part or re.fullmatch(r"(&\s*('[a-z_]+\s+)?(mut\s+)?|mut\s+)?self", part):
+            continue
+        m = re.match(r"(?:mut\s+)?([a-z_][a-z0-9_]*)\s*:\s*(.+)$", part)
+        if not m:
+            raise ParseError("unsupported parameter %r" % part)
+        out.append((m.group(1), m.group(2).strip()))
     return out
 
 
